@@ -38,6 +38,18 @@ Proof.
 Qed.
 Print Assumptions C07_handlers_do_not_raise.
 
+(* The ISUPPORT entries that the per-message path reads before dispatch (_tagMsg -> _setMsgChannel -> isChannel, and
+   the same tagging of every outgoing message in takeMsg) cannot make it raise, whatever do005 stored: a token without
+   value (None) is not handed to ircutils.isChannel (repair of C07.F45; table pin ISCHANNEL_NONE_SAFE).  The former
+   witness — ":srv 005 test CHANTYPES :are supported" then "PING :abc" — records None and answers the PING. *)
+Theorem C07_isupport_cannot_stall :
+  (forall i command args, tag_raises i command args = false) /\
+  (forall vt, let ms := run_reads unit vt dec0 h0 h0 [] w_isupport (init tt) in
+     i_chantypes (sup (fst (m_p ms))) = Some None /\ alive ms = true /\ escapes ms = [None; None] /\
+     sent (fst (m_p ms)) = [[97; 98; 99]]).
+Proof. split; [exact tag_safe|exact isupport_valueless_harmless]. Qed.
+Print Assumptions C07_isupport_cannot_stall.
+
 (* THE FULL STATEMENT.  For every byte stream, every decode function, every chunking, every sequence of recv faults
    that _read's except clauses name (socket.timeout, SSLError, socket.error, close), every handler raising Exception
    subclasses and every callback raising anything: the driver stays registered, drivers.run() does not crash and nothing
